@@ -141,4 +141,13 @@ theorem floatValueApproxR_refl (rnd : Rat → Rat) (h : SignSymmetric rnd) (lim 
     simp [floatValueApproxR, F.isNaN, F.isFinite]
     exact floatApproxFR_refl rnd h lim hlim fr mg q a b z hp
 
+/-- `DurationValueWithinP(p)` as a comparer in rounded arithmetic.  A non-finite p (NaN, ±Inf) makes the right-hand
+product NaN or ±Inf whatever the roundings, so the exact special-value arithmetic decides. -/
+def durationValueWithinPR (rnd : Rat → Rat) (p : F) : VCmp := fun x y =>
+  let (xd, yd, equal, ok, early) := cmpDuration x y
+  if early then (equal, ok) else
+    match p with
+    | .fin q _ => (durWithinPR rnd q xd yd, true)
+    | _ => (durWithinPD p xd yd, true)
+
 end ScVerif.C16
